@@ -183,7 +183,8 @@ fn one(id: u64, v: &Value, bash: &Path) -> Value {
         let detached = t["detached"].as_bool().unwrap();
         let mut config = TestCaseConfig::default_markdown();
         config.environment.insert("BASE".into(), work.to_string_lossy().to_string());
-        if detached { config.detached = Some(true); }
+        // `detached: false` written out must mean the same as leaving it out
+        if detached { config.detached = Some(true); } else if (id + k as u64) % 2 == 0 && v.get("exec").and_then(|x| x.as_str()) != Some("script") { config.detached = Some(false); }
         for o in t["ops"].as_array().unwrap() {
             if o["op"] == json!("cfgenv") { config.environment.insert(o["a"].as_str().unwrap().to_string(), value_of(o["c"].as_str().unwrap()).to_string()); }
         }
